@@ -113,15 +113,32 @@ def r2_r3(F, rep):
         rep.add("C14-R2", "replica_share|%s" % name, f.loc(snap) if snap is not None else f.loc(),
                 "%s is %s from the merged grid on every non-error path of replica_share()" % (name, "refreshed" if ok else "NOT refreshed"),
                 ok, detail="otherwise the next delta would send the peers' data back to them (counted twice)", func=f.q)
-    for g in F.func_q("colvarbias_abf::read_state_data_template_"):
+    # every function that loads the accumulated grids from outside (state file, inputPrefix files) marks the loaded data as
+    # already shared
+    nload = 0
+    for g in F.funcs.values():
+        if g.cls != "colvarbias_abf" or g.is_lambda or g.q == f.q:
+            continue
+        loads = [c for c in X.calls(g) if c["k"] == "CXXMemberCallExpr" and X.receiver(c) is not None and
+                 X.key(X.receiver(c), g) in ("op->(this.gradients)", "op->(this.samples)") and X.callee_name(c).startswith("read_")]
+        if not loads:
+            continue
+        nload += 1
         got = set()
         for c in X.calls(g):
             if c["k"] == "CXXMemberCallExpr" and X.callee_name(c) == "copy_grid" and "last_" in X.key(X.receiver(c), g):
                 facts, gs = C.guard_facts(g, c)
-                if ("true", "this.shared_on") in facts:
+                src = X.key(X.call_args(c)[0], g) if X.call_args(c) else ""
+                want = "gradients" if "gradients" in X.key(X.receiver(c), g) else "samples"
+                if ("true", "this.shared_on") in facts and want in src and "last_" not in src and all(g.cfg.can_reach(l, c) for l in loads):
                     got.add(X.key(X.receiver(c), g))
-        rep.add("C14-R2", "read_state_data|%s" % g.typestr(g.params[0]["t"])[:24], g.loc(),
-                "loading a state in shared mode refreshes %s" % sorted(got), len(got) == 2, func=g.q)
+        tag = g.name if not g.params else "%s|%s" % (g.name, g.typestr(g.params[0]["t"])[:24])
+        rep.add("C14-R2", "load|%s" % tag, g.loc(loads[0]),
+                "%s loads gradients/samples from outside (%d read call(s)); in shared mode it then refreshes %s" % (g.q, len(loads), sorted(got) or "NOTHING"),
+                len(got) == 2, detail="data loaded but not recorded in last_gradients / last_samples is sent to every peer as a new increment: "
+                                      "the combined grids hold it once per walker", func=g.q)
+    if nload < 3:
+        raise AnalysisBroken("C14-R2: only %d loaders of the ABF grids found (two state readers and read_gradients_samples expected)" % nload)
     # R3
     for q, fam in (("colvarbias_abf::replica_share", (("gradients", "samples"),)),
                    ("colvarbias_abf::replica_share_CZAR", (("gradients", "samples"),))):
